@@ -97,6 +97,18 @@ func init() {
 						sweep("h:" + v)
 						sweep("1.2.3." + v)
 					}
+					// structured values: host part x what follows it x terminator (brackets and port separators in every
+					// arrangement: the host state's "inside brackets" flag vs. a setter-side pre-check), and the same
+					// skeleton for the other setters' delimiters
+					if st == "host" || st == "hostname" {
+						for _, h := range []string{"", "h", "[::1]", "[::1", "::1]", "1.2.3.4", "[1.2.3.4]", "h]", "[h"} {
+							for _, m := range []string{"", ":", ":81", ":]", ":81]", "]", "]:81", ":[", "::", ":81:82", ":0x51", ":8 1"} {
+								for _, t := range []string{"", "/p", "?q", "#f", "\\p", "\t"} {
+									sweep(h + m + t)
+								}
+							}
+						}
+					}
 					enum.Raw(enum.General, k, func(s []byte) {
 						if !c.Mine() || c.Expired() {
 							return
